@@ -152,7 +152,8 @@ def _row_query_terms(sp, cols, vals, tau, keep_top=24):
     cols = cols[~m0]; vals = vals[~m0]
   if len(cols) == 0:
     return const, cols, vals, 0.0, np.zeros(0), np.zeros(0)
-  L, H = sp.mono_bounds(cols)
+  La, Ha = sp.col_bounds()
+  L = La[cols]; H = Ha[cols]
   mag = np.abs(vals) * np.maximum(np.abs(L), np.abs(H))
   order = np.argsort(-mag)
   cum = np.cumsum(mag[order])
@@ -603,6 +604,7 @@ def finalize(pid, tier, seed, results, t0, *, level='other', explanation='', bou
       inconclusive=inconcl,
       known_findings_reported=sorted(seen),
       clauses=[{k: v for k, v in c.items() if k != 'prims'} for c in clauses][:400],
+      task_wall_s={r['task']: round(r['wall'], 1) for r in results},
       checker_cmd=f'./check {pid} --tier {tier}',
       trusted_base=trusted or [],
       exhaustive=False,
@@ -620,6 +622,8 @@ def finalize(pid, tier, seed, results, t0, *, level='other', explanation='', bou
     code = 2
   else:
     code = 0
+  slow = sorted(((round(r['wall'], 1), r['task']) for r in results), reverse=True)[:3]
+  print('slowest tasks:', slow)
   print(f'{pid} [{tier}] obligations={nob} discharged={ndis} queries={stats.total()} solver_s={stats.time:.1f} '
         f'violations={len(new_viol)} known={len(seen)} errors={len(errors)} wall={time.time() - t0:.1f}s -> exit {code}')
   return code
